@@ -16,6 +16,7 @@ props = opt('props', '')
 sdir = opt('dir', 'seeded')
 work = '/tmp/matrix'
 os.makedirs(work, exist_ok=True)
+os.makedirs(os.path.join(ROOT, 'gen'), exist_ok=True)
 def sh(c, env=None): return subprocess.run(c, shell=True, capture_output=True, text=True, env=env)
 muts = [d for d in sorted(glob.glob(os.path.join(ROOT, sdir, '*'))) if not names or os.path.basename(d) in names.split(',')]
 plist = props.split(',') if props else sorted(claims.CLAIMS)
